@@ -211,6 +211,26 @@ fn bytes_mode(inputs: &[Vec<u8>], seed: u64, fuzz: usize, si: usize, sn: usize, 
             }
         }
     }
+    // every byte value in and around a digit position (what counts as a digit is a byte-level decision)
+    for lead in [b':', b'$', b'*'] {
+        for b in 0..=255u8 {
+            for pat in 0..4 {
+                let mut v = vec![lead];
+                match pat {
+                    0 => v.push(b),
+                    1 => v.extend_from_slice(&[b'1', b]),
+                    2 => v.extend_from_slice(&[b, b'1']),
+                    _ => v.extend_from_slice(&[b'-', b]),
+                }
+                v.extend_from_slice(b"\r\n");
+                if lead == b'$' {
+                    v.extend_from_slice(&[b'x'; 12]);
+                    v.extend_from_slice(b"\r\n");
+                }
+                extra.push(("anybyte".into(), v, 0));
+            }
+        }
+    }
     // the null bulk header and its neighbours, alone and followed by another frame
     for h in ["$-1\r\n", "$-01\r\n", "$-001\r\n", "$-0\r\n\r\n", "$-0\r\n", "$-00\r\n\r\n", "$-1x\r\n", "$--1\r\n", "$-10\r\n", "$-\r\n\r\n",
               "$-1\r\r\n", "$+1\r\na\r\n", "$-+1\r\n", "$- 1\r\n", "$-1\n\r\n", "$-2\r\n"] {
@@ -310,6 +330,8 @@ fn bytes_mode(inputs: &[Vec<u8>], seed: u64, fuzz: usize, si: usize, sn: usize, 
 struct SegStream {
     segs: VecDeque<Vec<u8>>,
     written: Vec<u8>,
+    /// a write accepts at most this many bytes (0 = everything): transports take short writes
+    max_write: usize,
 }
 impl AsyncRead for SegStream {
     fn poll_read(mut self: Pin<&mut Self>, _cx: &mut Context<'_>, buf: &mut ReadBuf<'_>) -> Poll<std::io::Result<()>> {
@@ -334,8 +356,9 @@ impl AsyncRead for SegStream {
 }
 impl AsyncWrite for SegStream {
     fn poll_write(mut self: Pin<&mut Self>, _cx: &mut Context<'_>, b: &[u8]) -> Poll<std::io::Result<usize>> {
-        self.written.extend_from_slice(b);
-        Poll::Ready(Ok(b.len()))
+        let n = if self.max_write == 0 { b.len() } else { b.len().min(self.max_write) };
+        self.written.extend_from_slice(&b[..n]);
+        Poll::Ready(Ok(n))
     }
     fn poll_flush(self: Pin<&mut Self>, _cx: &mut Context<'_>) -> Poll<std::io::Result<()>> {
         Poll::Ready(Ok(()))
@@ -348,7 +371,7 @@ impl AsyncWrite for SegStream {
 fn read_run(rt: &tokio::runtime::Runtime, segs: Vec<Vec<u8>>) -> (Vec<Value>, String) {
     let r = std::panic::catch_unwind(std::panic::AssertUnwindSafe(|| {
         rt.block_on(async {
-            let mut conn = Connection::new(SegStream { segs: segs.into(), written: vec![] });
+            let mut conn = Connection::new(SegStream { segs: segs.into(), written: vec![], max_write: 0 });
             let mut got = vec![];
             loop {
                 match conn.read_frame().await {
@@ -376,7 +399,12 @@ fn conn_mode(streams: &[Value], seed: u64, si: usize, sn: usize, out: &mut Trace
     // stretches the bounded frame set cannot contain: payloads around and above the 8 KiB
     // read/write buffers, followed by more frames in the same stream (pipelining)
     let mut all: Vec<Value> = streams.to_vec();
-    for big in [8180usize, 8192, 8193, 16384, 16400, 20000] {
+    // (65527 and 131062: the encoding is 2^16 + 1 and 2^17 + 1 bytes long, one more than a doubling buffer holds)
+    let huge = std::env::args().any(|a| a == "--huge");
+    for big in [8180usize, 8192, 8193, 16384, 16400, 20000, 65527, 131062] {
+        if big > 70000 && !huge {
+            continue;
+        }
         let payload: Vec<u64> = (0..big).map(|i| if i % 97 == 0 { 13 } else if i % 89 == 0 { 10 } else { 97 + (i % 26) as u64 }).collect();
         let b = json!({"t": "bulk", "b": payload});
         let small = json!({"t": "bulk", "b": [107]});
@@ -406,7 +434,9 @@ fn conn_mode(streams: &[Value], seed: u64, si: usize, sn: usize, out: &mut Trace
             Err(_) => Err("panic".into()),
             Ok(Err(e)) => Err(e),
             Ok(Ok(_)) => {
-                let mut sink = SegStream { segs: VecDeque::new(), written: vec![] };
+                // (a transport that takes at most 1000 bytes per write: what is read back below is what
+                // really went out, not what the writer believes it sent)
+                let mut sink = SegStream { segs: VecDeque::new(), written: vec![], max_write: 1000 };
                 let r = rt.block_on(async {
                     let mut conn = Connection::new(&mut sink);
                     for f in &frames {
@@ -450,7 +480,7 @@ fn conn_mode(streams: &[Value], seed: u64, si: usize, sn: usize, out: &mut Trace
         {
             let mut at = 0usize;
             for f in &frames {
-                let mut sink = SegStream { segs: VecDeque::new(), written: vec![] };
+                let mut sink = SegStream { segs: VecDeque::new(), written: vec![], max_write: 0 };
                 let _ = rt.block_on(async { Connection::new(&mut sink).write_frame(f).await });
                 at += sink.written.len();
                 bounds.push(at);
